@@ -702,3 +702,204 @@ def canonical_imports(tree):
                     al.asname = rename[cur] if isinstance(
                         n, ast.Import) else None
     return cnt
+
+
+# ---------------------------------------------------------------------------
+# canonical names for role-bearing locals
+# ---------------------------------------------------------------------------
+def _consts(e):
+    return {x.value for x in ast.walk(e) if isinstance(x, ast.Constant)
+            and isinstance(x.value, str)}
+
+
+def _is_lit(e):
+    return isinstance(e, (ast.List, ast.Tuple, ast.Set))
+
+
+def _call_is(e, name):
+    from .astutil import call_name
+    return isinstance(e, ast.Call) and (call_name(e) or '') == name
+
+
+# (file, function) -> [(canonical name, recogniser of the defining value)]
+# A local whose (single-target) assignment matches a recogniser is renamed to
+# the canonical name throughout the function, so that rules can keep naming
+# roles the way the reviewed tree names them.  On the reviewed tree the pass
+# is the identity.
+_V = 'biom/cli/table_validator.py'
+CANONICAL_LOCALS = {
+    (_V, 'TableValidator._validate_hdf5'): [
+        ('table', lambda e: isinstance(e, ast.Subscript) and
+         isinstance(e.value, ast.Name) and e.value.id == 'kwargs' and
+         _consts(e.slice) == {'table'}),
+        ('required_attrs', lambda e: _is_lit(e) and
+         'format-url' in _consts(e)),
+        ('required_groups', lambda e: _is_lit(e) and
+         'observation/matrix' in _consts(e)),
+        ('required_datasets', lambda e: _is_lit(e) and
+         'observation/ids' in _consts(e)),
+    ],
+    (_V, 'TableValidator._valid_sparse_data'): [
+        ('dtype', lambda e: isinstance(e, ast.Subscript) and
+         isinstance(e.value, ast.Attribute) and
+         e.value.attr == 'ElementTypes'),
+    ],
+    (_V, 'TableValidator._valid_dense_data'): [
+        ('dtype', lambda e: isinstance(e, ast.Subscript) and
+         isinstance(e.value, ast.Attribute) and
+         e.value.attr == 'ElementTypes'),
+    ],
+    (_V, 'TableValidator._valid_rows'): [
+        ('required_keys', lambda e: _is_lit(e) and 'id' in _consts(e) and
+         'metadata' in _consts(e)),
+    ],
+    (_V, 'TableValidator._valid_columns'): [
+        ('required_keys', lambda e: _is_lit(e) and 'id' in _consts(e) and
+         'metadata' in _consts(e)),
+    ],
+    ('biom/table.py', 'Table.from_adjacency'): [
+        ('parts', lambda e: isinstance(e, ast.Call) and isinstance(
+            e.func, ast.Attribute) and e.func.attr == 'split' and
+         _consts(e) == {'\t'} and isinstance(e.func.value, ast.Name)),
+    ],
+    ('biom/parse.py', 'parse_uc'): [
+        ('data', lambda e: _call_is(e, 'defaultdict') and len(e.args) == 1
+         and isinstance(e.args[0], ast.Name) and e.args[0].id == 'int'),
+        ('fields', lambda e: isinstance(e, ast.Call) and isinstance(
+            e.func, ast.Attribute) and e.func.attr == 'split' and
+         _consts(e) == {'\t'}),
+        ('line_type', lambda e: isinstance(e, ast.Subscript) and
+         isinstance(e.value, ast.Name) and e.value.id == 'fields' and
+         isinstance(e.slice, ast.Constant) and e.slice.value == 0),
+    ],
+}
+
+
+def _rename_in(fn, old, new):
+    for n in ast.walk(fn):
+        if isinstance(n, ast.Name) and n.id == old:
+            n.id = new
+        elif isinstance(n, ast.ExceptHandler) and n.name == old:
+            n.name = new
+
+
+def canonical_locals(tree, rel):
+    """Apply CANONICAL_LOCALS and the generic 'returned under key k' rule
+    (`return {'valid_table': v, 'report_lines': r}` names v and r)."""
+    done = 0
+
+    def functions(body, prefix=''):
+        for n in body:
+            if isinstance(n, ast.ClassDef):
+                yield from functions(n.body, prefix + n.name + '.')
+            elif isinstance(n, (ast.FunctionDef, ast.AsyncFunctionDef)):
+                yield prefix + n.name, n
+    for q, fn in functions(tree.body):
+        params = {a.arg for a in fn.args.args + fn.args.kwonlyargs}
+        bound = {x.id for x in ast.walk(fn) if isinstance(x, ast.Name)
+                 and isinstance(x.ctx, ast.Store)} | params
+        pairs = []
+        for canon, rec in CANONICAL_LOCALS.get((rel, q), []):
+            hits = {t.id for a in ast.walk(fn) if isinstance(a, ast.Assign)
+                    and len(a.targets) == 1 and isinstance(
+                        a.targets[0], ast.Name) and rec(a.value)
+                    for t in a.targets}
+            hits -= params
+            if len(hits) == 1:
+                old = hits.pop()
+                if old != canon and canon not in bound:
+                    pairs.append((old, canon))
+                    bound.add(canon)
+            # later recognisers may refer to canonical names (fields[0])
+            for old, new in pairs:
+                _rename_in(fn, old, new)
+                done += 1
+            pairs = []
+        # returned under a constant key
+        if rel == _V:
+            for r in ast.walk(fn):
+                if isinstance(r, ast.Return) and isinstance(r.value,
+                                                            ast.Dict):
+                    for k, v in zip(r.value.keys, r.value.values):
+                        if isinstance(k, ast.Constant) and isinstance(
+                                k.value, str) and k.value.isidentifier() \
+                                and isinstance(v, ast.Name) and \
+                                v.id != k.value and v.id not in params \
+                                and k.value not in bound:
+                            _rename_in(fn, v.id, k.value)
+                            bound.add(k.value)
+                            done += 1
+    return done
+
+
+# ---------------------------------------------------------------------------
+# flattened view for pattern-searching rules
+# ---------------------------------------------------------------------------
+def flat_view(module_tree, rel, fn, cls_name=None, depth=2):
+    """Copy of `fn` with the bodies of the *new* private helpers it calls
+    (helpers absent from known_private.json, i.e. the result of an "extract
+    method" refactoring that could not be inlined statement-wise because of
+    early returns) appended to its body, parameters replaced by the argument
+    expressions.  Order and control flow between caller and helper are not
+    represented: only for rules that search a function for constructs."""
+    known = known_private(rel)
+    helpers = {}
+    for n in module_tree.body:
+        if isinstance(n, ast.FunctionDef):
+            helpers[('', n.name)] = n
+        elif isinstance(n, ast.ClassDef):
+            for m in n.body:
+                if isinstance(m, ast.FunctionDef):
+                    helpers[(n.name, m.name)] = m
+    out = copy.deepcopy(fn)
+    seen = {fn.name}
+    work = [(out, 0)]
+    extra = []
+    while work:
+        cur, d = work.pop()
+        if d >= depth:
+            continue
+        for c in ast.walk(cur):
+            if not isinstance(c, ast.Call):
+                continue
+            name = recv = None
+            if isinstance(c.func, ast.Attribute) and isinstance(
+                    c.func.value, ast.Name) and c.func.value.id in (
+                    'self', 'cls'):
+                name, recv = c.func.attr, c.func.value.id
+            elif isinstance(c.func, ast.Name):
+                name = c.func.id
+            if not name or not name.startswith('_') or name.startswith(
+                    '__') or name in seen:
+                continue
+            fd = None
+            for (cls, nm), h in helpers.items():
+                if nm == name and (bool(cls) == bool(recv)):
+                    q = '%s.%s' % (cls, nm) if cls else nm
+                    if q not in known:
+                        fd = h
+            if fd is None:
+                continue
+            seen.add(name)
+            params = [a.arg for a in fd.args.args]
+            if recv and params:
+                params = params[1:]
+            mapping = {}
+            for p, a in zip(params, c.args):
+                if isinstance(a, (ast.Name, ast.Attribute, ast.Constant)):
+                    mapping[p] = a
+            for k in c.keywords:
+                if k.arg in params and isinstance(
+                        k.value, (ast.Name, ast.Attribute, ast.Constant)):
+                    mapping[k.arg] = k.value
+            body = [_Rename(mapping).visit(copy.deepcopy(st))
+                    for st in fd.body
+                    if not (isinstance(st, ast.Expr) and
+                            isinstance(st.value, ast.Constant))]
+            holder = ast.Module(body=body, type_ignores=[])
+            extra.extend(body)
+            work.append((holder, d + 1))
+    if extra:
+        out.body = list(out.body) + extra
+        ast.fix_missing_locations(out)
+    return out
